@@ -3,7 +3,8 @@
 (* terminal for the core vocabulary                                         *)
 (*   printable text (narrow, wide), CR, LF, CUP HVP CHA HPA VPA, CUU CUD    *)
 (*   CUF CUB CNL CPL, ED EL ECH ICH DCH IL DL SU SD, DECSTBM, IND RI NEL,   *)
-(*   DECSC DECRC, alternate screen (DEC private mode 1049), SGR.            *)
+(*   DECSC DECRC (and xterm's private mode 1048), alternate screen (xterm   *)
+(*   private modes 47, 1047, 1049), SGR.                                    *)
 (* Written from DEC STD 070 / the VT510 programmer's reference (control     *)
 (* function descriptions), ECMA-48 (8.3.x) and xterm's ctlseqs; SGR from    *)
 (* module SGR.  No identifier of the code under test occurs here.           *)
@@ -174,9 +175,43 @@ AltOn(s) ==
   LET s1 == DECSC(s) IN
   IF s1.alt THEN [s1 EXCEPT !.grid = BlankGrid(s.rows, s.cols, s.pen.bg)]
   ELSE [s1 EXCEPT !.alt = TRUE, !.other = s1.grid, !.grid = BlankGrid(s.rows, s.cols, s.pen.bg)]
+(* Nothing says what the alternate buffer holds after it was left through   *)
+(* mode 1049 (xterm keeps its contents, other terminals clear it): its cells *)
+(* are Unknown until something prescribed is written there.                 *)
+UnknownGrid(R, C) == [y \in 1..R |-> [x \in 1..C |-> Unknown]]
 AltOff(s) ==
-  DECRC(IF s.alt THEN [s EXCEPT !.alt = FALSE, !.grid = s.other, !.other = BlankGrid(s.rows, s.cols, 0)]
+  DECRC(IF s.alt THEN [s EXCEPT !.alt = FALSE, !.grid = s.other, !.other = UnknownGrid(s.rows, s.cols)]
         ELSE s)
+
+(* DEC private modes 47 and 1047 (xterm ctlseqs): set = "use Alternate      *)
+(* Screen Buffer", reset = "use Normal Screen Buffer", 1047 "clearing screen *)
+(* first if in the Alternate Screen Buffer".  Only the displayed buffer     *)
+(* changes: cursor, rendition and saved cursors stay, nothing is cleared on *)
+(* entry, and a buffer that is not displayed keeps its contents.            *)
+Alt47On(s)    == IF s.alt THEN s ELSE [s EXCEPT !.alt = TRUE, !.grid = s.other, !.other = s.grid]
+Alt47Off(s)   == IF s.alt THEN [s EXCEPT !.alt = FALSE, !.grid = s.other, !.other = s.grid] ELSE s
+Alt1047Off(s) == IF s.alt THEN [s EXCEPT !.alt = FALSE, !.grid = s.other,
+                                         !.other = BlankGrid(s.rows, s.cols, s.pen.bg)]
+                 ELSE s
+(* DEC private mode 1048 (xterm): set = save cursor as in DECSC, reset =    *)
+(* restore cursor as in DECRC.                                              *)
+
+(* SGR: module SGR leaves parameter 21 open; ECMA-48 8.3.117 and xterm's    *)
+(* ctlseqs ("Ps = 2 1  => Doubly-underlined, ECMA-48 2nd") define it, and   *)
+(* SGR 24 ("not underlined") ends it like any underline.                    *)
+SimpleVT(pen, p) == IF Len(p) = 1 /\ p[1] = 21 THEN [pen EXCEPT !.us = 2] ELSE Simple(pen, p)
+RECURSIVE ApplyFromVT(_, _, _)
+ApplyFromVT(pen, ps, i) ==
+  IF i > Len(ps) THEN pen
+  ELSE IF IsExt(ps[i]) THEN
+     LET e == ExtColour(ps, i)
+         c == ps[i][1]
+     IN IF ~e.ok THEN pen
+        ELSE ApplyFromVT(CASE c = 38 -> [pen EXCEPT !.fg = e.col]
+                           [] c = 48 -> [pen EXCEPT !.bg = e.col]
+                           [] c = 58 -> [pen EXCEPT !.ul = e.col], ps, i + e.n)
+  ELSE ApplyFromVT(SimpleVT(pen, ps[i]), ps, i + 1)
+ApplyVT(pen, ps) == IF Len(ps) = 0 THEN DefaultPen ELSE ApplyFromVT(pen, ps, 1)
 
 (* DECSTBM (CSI Pt ; Pb r): defaults 1 and the last line; needs Pt < Pb,    *)
 (* otherwise ignored; a valid setting homes the cursor.                     *)
@@ -191,7 +226,8 @@ STBMSet(s, t, b) == [s EXCEPT !.top = t, !.bot = b, !.r = 1, !.c = 1, !.pw = FAL
 (*  "C" everything else: not constrained while pw holds.                    *)
 Kind(op) ==
   IF op \in {"PRINT", "PRINTS", "CR", "CUP", "HVP", "CHA", "HPA", "VPA"} THEN "A"
-  ELSE IF op \in {"NOP", "SGR", "DECSC", "DECRC", "ALTON", "ALTOFF", "DECSTBM", "SU", "SD"} THEN "B"
+  ELSE IF op \in {"NOP", "SGR", "DECSC", "DECRC", "ALTON", "ALTOFF", "DECSTBM", "SU", "SD",
+                  "ALT47ON", "ALT47OFF", "ALT1047ON", "ALT1047OFF", "SC1048", "RC1048"} THEN "B"
   ELSE "C"
 
 (* An outcome: resulting state s, the set cs of acceptable cursor columns   *)
@@ -217,11 +253,14 @@ Outcomes(s, e) ==
     [] op \in {"CUP", "HVP"} -> One(CUP(s, P(e.ps, 1, 1), P(e.ps, 2, 1)))
     [] op \in {"CHA", "HPA"} -> One(CUP(s, s.r, n))
     [] op = "VPA"   -> One(CUP(s, n, s.c))
-    [] op = "SGR"   -> OneB(s, [s EXCEPT !.pen = Apply(s.pen, e.sgr)])
-    [] op = "DECSC" -> OneB(s, DECSC(s))
-    [] op = "DECRC" -> OneB(s, DECRC(s))
+    [] op = "SGR"   -> OneB(s, [s EXCEPT !.pen = ApplyVT(s.pen, e.sgr)])
+    [] op \in {"DECSC", "SC1048"} -> OneB(s, DECSC(s))
+    [] op \in {"DECRC", "RC1048"} -> OneB(s, DECRC(s))
     [] op = "ALTON" -> OneB(s, AltOn(s))
     [] op = "ALTOFF" -> OneB(s, AltOff(s))
+    [] op \in {"ALT47ON", "ALT1047ON"} -> OneB(s, Alt47On(s))
+    [] op = "ALT47OFF" -> OneB(s, Alt47Off(s))
+    [] op = "ALT1047OFF" -> OneB(s, Alt1047Off(s))
     [] op = "SU"    -> OneB(s, SU(s, n))
     [] op = "SD"    -> OneB(s, SD(s, n))
     [] op = "DECSTBM" ->
@@ -249,6 +288,7 @@ Outcomes(s, e) ==
     [] op = "DL"    -> ColFree(q, DL(q, n))
 
 OpNames == {"NOP", "PRINT", "PRINTS", "CR", "CUP", "HVP", "CHA", "HPA", "VPA", "SGR", "DECSC", "DECRC", "ALTON", "ALTOFF",
+            "ALT47ON", "ALT47OFF", "ALT1047ON", "ALT1047OFF", "SC1048", "RC1048",
             "SU", "SD", "DECSTBM", "LF", "IND", "RI", "NEL", "CUU", "CUD", "CUF", "CUB", "CNL", "CPL",
             "ED", "EL", "ECH", "ICH", "DCH", "IL", "DL"}
 
